@@ -88,9 +88,13 @@ PROPS = {
                        "the target's memory, the unreferenced-stack rule, sanitization) into one gathering function and proves E2E_stack_contains_sp: a "
                        "thread whose stack pointer lies in an accessible mapping gets a recorded region that contains the stack pointer, lies inside the "
                        "mapping, holds the target's bytes (unsanitized) or zeros below the stack pointer (sanitized), reaches the mapping's end unless "
-                       "shortened, and is shortened only under a limit at list position ≥ 20, never for the crash-context thread, to ≤ 2 KiB.",
+                       "shortened, and is shortened only under a limit at list position ≥ 20, never for the crash-context thread, to ≤ 2 KiB. "
+                       "gatherThread / gatherThreads model the loop of thread_list_stream::write around it (which source each thread's stack pointer, "
+                       "instruction pointer and registers come from, which thread is exempt): E2E_threads (one gathered thread per listed thread, in order, "
+                       "at its list position), E2E_crash_thread / E2E_other_thread, E2E_crash_thread_full (the thread of the crash context reaches its "
+                       "mapping's end under any limit at any position). The live driver evaluates gatherThread on every thread of every live C06 dump.",
         "extra_modules": ["MdwModel.Theorems.EndToEnd"],
-        "extra_theorems": ["gather_inv", "E2E_stack_contains_sp", "gather_order_agrees"],
+        "extra_theorems": ["gather_inv", "E2E_stack_contains_sp", "gather_order_agrees", "E2E_crash_thread", "E2E_other_thread", "E2E_threads", "E2E_crash_thread_full"],
     },
     "C20": {
         "rule": "real stack_has_pointer_to_mapping on stacks of length 0 … 64 with words at / next to both ends of the principal mapping at all "
@@ -147,8 +151,11 @@ PROPS = {
         "rule": "live: 2 … 5 dump requests on one configured writer against a blocked target, then one request on a freshly configured writer; every "
                 "image is decoded into a canonical, offset-independent summary (threads with stack and context fingerprints, modules, memory list, "
                 "exception, system info, names, handles, linker data; raw /proc text only by presence) and compared with the fresh writer's. "
+                "Before the last request of each history the target's resource limits are changed (prlimit), and the copies of the target's files that do "
+                "not change by themselves (release file, cmdline, environ, auxv, maps, limits) in that request's dump are compared byte for byte with the "
+                "fresh writer's dump of the same parked target. "
                 "Distinct = distinct (k, option vector, summary length).",
-        "expected_tags": ["k.2", "k.3", "k.4", "k.5", "cfg.crash", "cfg.app", "cfg.skip"],
+        "expected_tags": ["k.2", "k.3", "k.4", "k.5", "cfg.crash", "cfg.app", "cfg.skip", "raw.compared", "target.mutated"],
         "trusted_base": ["the target is blocked in raw syscalls, so its state is the same at every request"],
         "assumptions": ["Linux writer only (src/mac has the same field but cannot be built here)"],
         "explanation": "C19 theorems over the model of the writer's per-request state: with the reset on entry an image is independent of the state left by "
@@ -167,7 +174,11 @@ PROPS = {
                        "serialised record; exception-record layout; fields chosen with / without a crash context (incl. the repaired case of an unlisted "
                        "blamed thread). C05_image_listed / _unlisted: in the whole-image model (Model/Dump.lean) of any content the exception stream sits in "
                        "directory slot 3, names the blamed thread, carries the supplied values, and its context location is the location stored in the blamed "
-                       "thread's thread-list record, where that context's bytes are (or the stand-alone copy of the supplied context).",
+                       "thread's thread-list record, where that context's bytes are (or the stand-alone copy of the supplied context). "
+                       "E2E_crash_thread (Theorems/EndToEnd.lean): in the model of the thread-list loop the listed thread the crash context blames takes its "
+                       "stack pointer, instruction pointer and registers from the crash context, whatever ptrace reported for it.",
+        "extra_modules": ["MdwModel.Theorems.EndToEnd"],
+        "extra_theorems": ["E2E_crash_thread", "E2E_other_thread"],
     },
     "C04": {
         "rule": "in-process: random user_regs / fpregs / debug registers through the real ThreadInfo::fill_cpu_context; live: targets whose threads load sentinel "
@@ -245,7 +256,12 @@ PROPS = {
         "explanation": "C08 theorems over the Lean model of the module-list logic (sections/mappings.rs, is_interesting, is_contained_in, effective path, entry-point swap): "
                        "a target mapping is listed iff it is interesting, not wholly inside a caller-supplied mapping and has a usable identifier; listed modules are "
                        "the aggregated mappings' hulls in order, hence pairwise disjoint (from the C13 theorems) and without duplicates; the module holding the entry "
-                       "point comes first; the name rule; caller-supplied mappings follow verbatim. The readers' answers are those of the C14 model.",
+                       "point comes first; the name rule; caller-supplied mappings follow verbatim. The readers' answers are those of the C14 model. "
+                       "E2E_module_in_image (Theorems/EndToEnd.lean) carries this into the whole-image model: for a dump whose module content is this module "
+                       "list, every such mapping has a record in the image's module-list stream (directory slot 1, counting exactly the gathered modules) with "
+                       "its base, size, CodeView record (ELF signature ‖ identifier) at the location the record names and the name string behind it.",
+        "extra_modules": ["MdwModel.Theorems.EndToEnd"],
+        "extra_theorems": ["E2E_module_in_image"],
     },
     "C17": {
         "rule": "live: MemReader::for_virtual_mem / for_file / for_ptrace (target ptrace-stopped) on ranges inside, ending exactly at, and crossing the end of "
@@ -262,9 +278,11 @@ PROPS = {
     "C11": {
         "rule": "live dumps under every subset of the five fail points (32 combinations, 1 … 5 threads, with / without an unresolvable principal mapping) and "
                 "under naturally induced failures: a thread name that is not UTF-8, garbage where the program headers are expected (direct auxv), a thread "
-                "traced by another process, threads that exit between enumeration and attach (each omitted thread must be a reported soft error), nothing induced. The soft-error stream is parsed with serde_json and reduced to its list of variant paths. "
+                "traced by another process, threads that exit between enumeration and attach (each omitted thread must be a reported soft error), a target "
+                "that is killed and reaped while the dump is under way (from the destination, when the n-th directory entry is written, n = 6 … 16: every later "
+                "step that copies one of the target's files or reads its memory must be listed under its own label, no completed step may be), nothing induced. The soft-error stream is parsed with serde_json and reduced to its list of variant paths. "
                 "Distinct = (scenario, mask, #threads, principal).",
-        "expected_tags": ["scen.faults", "scen.badname", "scen.baddso", "scen.traced", "scen.none", "mask.0", "mask.31"],
+        "expected_tags": ["scen.faults", "scen.badname", "scen.baddso", "scen.traced", "scen.none", "scen.killed", "killed.checked", "mask.0", "mask.31"],
         "extra_theorems": ["plan_best_effort_soft", "plan_soft_errors_last"],
         "trusted_base": ["serde_json emits well-formed JSON (the harness re-parses it)", "error-graph pushes a sub-list to its parent on drop iff it is non-empty", "failspot"],
         "assumptions": ["the stop time-out (StopProcessFailed/Timeout) may appear on its own when a thread is traced by another process: timing dependent, tolerated in the natural scenarios"],
@@ -277,9 +295,11 @@ PROPS = {
         "rule": "live: dumps that succeed, fail hard (unreadable app memory), hit a destination I/O error or a destination panic at a random call index 0 … 45, "
                 "run with the process-wide stop disabled (also under a steady stream of realtime signals to every thread) or with a stop that times out, against targets with blocked and busy threads and, in one case in three, a "
                 "sandbox-helper-like thread (null stack pointer: attached, then skipped); realtime signals are sent to chosen threads at the "
-                "sync-hook points dump_start / threads_enumerated / before_attach(tid) / threads_suspended / before_resume / after_resume. Afterwards: "
+                "sync-hook points dump_start / threads_enumerated / before_attach(tid) / threads_suspended / before_resume / after_resume; targets whose "
+                "leader is a zombie, targets with a thread that cannot act on signals for a while (parent of a vfork child) with signals sent to it, "
+                "and such targets while signals without SA_RESTART keep interrupting the dumping thread's own waits (slow-eintr). Afterwards: "
                 "State and TracerPid of every task, per-thread delivered-signal counters, heartbeat of busy threads. Distinct = (scenario, outcome, call, #tasks, #signals).",
-        "expected_tags": ["scen.ok", "scen.destfail", "scen.destpanic", "scen.badapp", "scen.nostop", "scen.stoptimeout", "scen.nostop-storm", "scen.ok-signals", "scen.destfail-signals", "signals.checked", "spin.checked", "result.panic", "thread.nullsp"],
+        "expected_tags": ["scen.ok", "scen.destfail", "scen.destpanic", "scen.badapp", "scen.nostop", "scen.stoptimeout", "scen.nostop-storm", "scen.ok-signals", "scen.destfail-signals", "scen.slow-signals", "scen.slow-eintr", "signals.checked", "spin.checked", "result.panic", "thread.nullsp"],
         "trusted_base": ["kernel semantics of ptrace attach / signal-delivery-stop / detach / group stop / SIGCONT (assumed; the live matrix observes their effect)",
                          "a failed PTRACE_CONT or a non-stop wait status means the tracee no longer exists"],
         "assumptions": ["partial: the kernel side is not modelled beyond the assumptions above; externally sent SIGSTOP/SIGCONT are excluded",
